@@ -36,6 +36,11 @@ B queueTargetAsync `t.State() > DependencyFailed` (off by one)  -> red: C05_fact
      run with a failing leaf below a chain (the dependent of a DependencyFailed target is queued and its build cannot proceed)
 E build.Build without FinishBuild() on the failure path        -> red: facts broken + did-not-terminate x5 (every --keep_going run
      with a failing command: dependents wait forever on finishedBuilding)
+S3 seeded by the coordinator: `if t.State() >= Built { continue }` at the top of the dependency wait loop (Failed and
+     DependencyFailed sort above Built) -> red with concrete inputs: C05_facts_ok broken (waitLoop / waitSkip = some "Built";
+     the driver's fireG then follows the code) AND on the real binary: started-after-dependency-failed on the raw log (warm
+     case: trace ... warm=1 touch=0 ev=S0,S1,F1,E0,S3,E3 rc=2 - target 3 ran on the stale output of its dependency-failed
+     dependency) and dependent-of-failed-target-was-run (fresh case: plz lists target 2 as failed, 'cannot calculate hash')
 A (see C04) no WaitForBuild                                     -> red there
 H (see C04) harmless renames + log line                         -> facts identical
 """
